@@ -66,6 +66,7 @@ theorem asciiCls_ok : ClsOK asciiCls where
     have h2 : x ≠ RPAR := by intro h; subst h; simp [kindOf, LPAR, RPAR] at hx
     simp only [asciiCls, LPAR, RPAR] at *
     split <;> simp <;> omega
+  parenNotSpace := by decide
 
 example : SpaceFreeT asciiCls [⟨[109, 105, 116], [], false⟩, ⟨[71, 80, 76], [], true⟩] := by
   intro e he
